@@ -351,3 +351,66 @@ def check(prop, tier, seed):
     if prop == "C05":
         return check_c05(tier, seed)
     return _check_generic(prop, tier, seed)
+
+
+# ---------------------------------------------------------------------------
+# binding demonstration: a recorded trace with ONE corrupted field, or with one hook event removed, must be rejected
+
+def selftest():
+    bins = C.build_harness("default", ["run"])
+    hb = bins["run"]
+    work = os.path.join(C.WORK, "run")
+    os.makedirs(work, exist_ok=True)
+    base = os.path.join(work, "selftest-%d.ndjson" % os.getpid())
+    C.run([hb, "record", "--profile", "C31", "--seed", "4242", "--n", "80", "--out", base, "--repo", C.REPO,
+           "--corpus", "0", "--heavy", "0"], timeout=900)
+    lines = [json.loads(l) for l in open(base)]
+
+    def validate(evs, tag):
+        p = os.path.join(work, "selftest-%s-%d.ndjson" % (tag, os.getpid()))
+        with open(p, "w") as f:
+            for e in evs:
+                f.write(json.dumps(e, separators=(",", ":")) + "\n")
+        res = C.run_tlc("TraceRun", workers=1, env={"TRACE": p}, deque=True, timeout=1800, name="TraceRun-selftest-" + tag, xmx="3g")
+        os.remove(p)
+        done = res.tagged("TRACE-DONE")
+        consumed = bool(done) and done[-1]["lines"] == len(evs)
+        kinds = sorted({m["kind"] for m in res.tagged("MISMATCH")})
+        return {"rc": res.rc, "consumed": consumed, "kinds": kinds}
+    report = {"trace_lines": len(lines)}
+    r0 = validate(lines, "base")
+    report["unmodified"] = r0
+    ok = r0["consumed"] and not [k for k in r0["kinds"] if k.startswith("guard") or k in ("outcome", "cap")]
+
+    def first(pred):
+        return next(i for i, e in enumerate(lines) if pred(e))
+    import copy
+    # (a) cost of one successful run + 1
+    i = first(lambda e: e.get("ev") == "end" and e.get("ok") is True)
+    m = copy.deepcopy(lines)
+    m[i]["cost"] = C.n_le(C.le_n(m[i]["cost"]) + 1)
+    r = validate(m, "cost")
+    report["end.cost+1"] = r
+    ok = ok and "outcome" in r["kinds"]
+    # (b) a guard exit that reports one more atom than its entry
+    i = first(lambda e: e.get("ev") == "guard_exit")
+    m = copy.deepcopy(lines)
+    m[i]["atoms"] += 1
+    r = validate(m, "guard")
+    report["guard_exit.atoms+1"] = r
+    ok = ok and "guard:counters" in r["kinds"]
+    # (c) the guard-exit hook removed for one guard: the event sequence is no behaviour of the specification
+    m = [e for j, e in enumerate(lines) if j != i]
+    r = validate(m, "nohook")
+    report["guard_exit removed"] = r
+    ok = ok and (not r["consumed"] or bool([k for k in r["kinds"] if k.startswith("guard") or k == "hook"]) or r["rc"] != 0)
+    # (d) a result value changed
+    i = first(lambda e: e.get("ev") == "end" and e.get("ok") is True and "a" in e.get("val", {}))
+    m = copy.deepcopy(lines)
+    m[i]["val"] = {"a": list(m[i]["val"]["a"]) + [7]}
+    r = validate(m, "val")
+    report["end.val changed"] = r
+    ok = ok and "outcome" in r["kinds"]
+    os.remove(base)
+    report["ok"] = bool(ok)
+    return report
